@@ -307,6 +307,29 @@ static void exercise(hctx* h, blob f, int mode, const char* desc) {
     unlink(path);
 }
 
+/* directed: a schema that is one chain of n nested groups (num_children = 1 each) ending in an INT32 leaf, no row groups.
+ * Hand-serialised compact Thrift (8 bytes per group element).  The reader must either reject it (element-count limit) or
+ * walk it without exhausting the stack. */
+static void put_varint(uint8_t** p, uint64_t v) { while (v >= 0x80) { *(*p)++ = (uint8_t)(v | 0x80); v >>= 7; } *(*p)++ = (uint8_t)v; }
+static blob deep_chain(long n) {
+    size_t cap = 64 + 8 * (size_t)(n + 2);
+    uint8_t* b = h_alloc(cap); uint8_t* p = b;
+    memcpy(p, "PAR1", 4); p += 4;
+    uint8_t* f0 = p;
+    *p++ = 0x15; *p++ = 0x02;                                   /* 1: version = 1 */
+    *p++ = 0x19; *p++ = 0xFC; put_varint(&p, (uint64_t)n + 2);  /* 2: schema, list<struct> of n + 2 elements */
+    *p++ = 0x48; *p++ = 0x01; *p++ = 'r'; *p++ = 0x15; *p++ = 0x02; *p++ = 0x00;          /* root: name, num_children = 1 */
+    for (long i = 0; i < n; i++) { *p++ = 0x35; *p++ = 0x00; *p++ = 0x18; *p++ = 0x01; *p++ = 'g'; *p++ = 0x15; *p++ = 0x02; *p++ = 0x00; }
+    *p++ = 0x15; *p++ = 0x02; *p++ = 0x25; *p++ = 0x00; *p++ = 0x18; *p++ = 0x01; *p++ = 'x'; *p++ = 0x00;   /* leaf INT32 REQUIRED */
+    *p++ = 0x16; *p++ = 0x00;                                   /* 3: num_rows = 0 */
+    *p++ = 0x19; *p++ = 0x0C;                                   /* 4: row_groups = [] */
+    *p++ = 0x00;
+    uint32_t L = (uint32_t)(p - f0);
+    *p++ = (uint8_t)L; *p++ = (uint8_t)(L >> 8); *p++ = (uint8_t)(L >> 16); *p++ = (uint8_t)(L >> 24);
+    memcpy(p, "PAR1", 4); p += 4;
+    blob r; r.b = b; r.n = (size_t)(p - b); return r;
+}
+
 static void gen_c04(hctx* h) {
     long bases = h->thorough ? 40 : 6, per = h->thorough ? 400 : 60;
     if (h->shards > 1) bases = (bases + h->shards - 1) / h->shards;
@@ -325,11 +348,25 @@ static void gen_c04(hctx* h) {
         }
         free(base.b);
     }
+    if (h->shards <= 1 || h->seed % (uint64_t)h->shards == 0) {
+        static const long depths[] = { 40, 2000, 65536, 400000, 1000000 };
+        for (int i = 0; i < 5; i++) {
+            char desc[40]; snprintf(desc, sizeof desc, "deepchain_%ld", depths[i]);
+            blob f = deep_chain(depths[i]);
+            for (int mode = 0; mode < 3; mode++) exercise(h, f, mode, desc);
+            free(f.b);
+        }
+    }
     fprintf(h->out, "#stat footer_mutations %ld\n#stat page_mutations %ld\n#stat raw_mutations %ld\n", kinds[0], kinds[1], kinds[2]);
 }
 
 static int replay_c04(hctx* h, const h_line* l) {
     if (strcmp(l->op, "c04") != 0) return 0;
+    const char* mu = h_in(l, "mut");
+    if (!h_in(l, "file") && mu && !strncmp(mu, "deepchain_", 10)) {
+        blob f = deep_chain(atol(mu + 10));
+        exercise(h, f, (int)h_ll(h_in(l, "mode")), mu); free(f.b); return 1;
+    }
     size_t n; uint8_t* b = h_unhex(h_in(l, "file"), &n);
     blob f; f.b = b; f.n = n;
     exercise(h, f, (int)h_ll(h_in(l, "mode")), h_in(l, "mut") ? h_in(l, "mut") : "replay");
